@@ -37,8 +37,13 @@ Step(st, ev) ==
     [] ev.ev = "AliasFit" ->
          R(st, (IF ev.alias \in DOMAIN Aliases /\ Aliases[ev.alias] = ev.replacement THEN {} ELSE {"C18.alias_table"})
                \cup (IF ev.future_warning THEN {} ELSE {"C18.deprecated_alias_warns"})
-               \cup (IF ev.model_alias = ev.model_replacement THEN {} ELSE {"C18.deprecated_alias_maps_to_replacement"}),
-           {"C18.deprecated_alias_warns", "C18.deprecated_alias_maps_to_replacement"})
+               \cup (IF ev.model_alias = ev.model_replacement THEN {} ELSE {"C18.deprecated_alias_maps_to_replacement"})
+               \* the alias-built estimator after set_params(<replacement> = another value): its clone is constructed, carries
+               \* the value set, and learns what an estimator constructed with that value learns
+               \cup (IF ev.clone_exc = "" /\ ev.clone_value_ok /\ ev.model_clone = ev.model_direct THEN {}
+                     ELSE {"C18.clone_after_set_params_on_an_alias_built_estimator_reproduces_it"}),
+           {"C18.deprecated_alias_warns", "C18.deprecated_alias_maps_to_replacement",
+            "C18.clone_after_set_params_on_an_alias_built_estimator_reproduces_it"})
     [] ev.ev = "UnfittedCall" ->
          R(st, IF ev.exc = "NotFittedError" THEN {} ELSE {"C18.unfitted_use_raises_NotFittedError"},
            {"C18.unfitted_use_raises_NotFittedError"})
